@@ -3,70 +3,83 @@ import Fabio.Model.C16
 /-!
 Obligations over the facts regenerated from `/repo` on every run (C16): what the model of the interceptor,
 the director and the connection pool silently assumes about `proxy/grpc_handler.go` and `main.go`.
+
+The facts are *event lists in role names* (see the header of `tools/factgen/c16.go`): the source is normalised
+(named constants inlined, switch → if chains), calls to unexported helpers are followed into their bodies with
+the arguments bound to the parameters, and variables are named by role — `recv` the receiver, `p<i>` the i-th
+parameter of the anchored function, `c<i>` parameters of a function literal, `looked`/`lookedErr` the result
+of the route lookup, `<callee>#<i>` the i-th result of a multi-value call, `lit#T` a composite literal,
+`made#T` the result of a constructor-like helper, `rk<n>`/`rv<n>` range variables; `[g₁ && g₂] e` reads "event
+e happens under the conditions g₁, g₂" (an early `return`/`continue` under `c` contributes `!(c)` to what
+follows).  Renaming locals, parameters, receivers or unexported helpers, extracting or inlining helpers,
+introducing named constants and turning if-chains into switches leave these lists unchanged.
 -/
 namespace Fabio.Props.C16Facts
 open Fabio Fabio.Generated.C16
 
-/-- The destination host is read from the metadata key the model uses, and only when it has exactly one value. -/
+/-- The destination host is read from the metadata key the model uses; the function returns the first value
+of that key exactly when the key has one value, and the empty string otherwise. -/
 theorem dsthost_key_pinned :
-    dsthostKey.toList = Model.C16.dsthostKey ∧ dsthostCond = "len(hosts) == 1" := by decide
+    dsthostKey.toList = Model.C16.dsthostKey ∧
+    dsthostResults = ["[!(len(p0[\"dsthost\"]) == 1)] ret \"\"", "[len(p0[\"dsthost\"]) == 1] ret p0[\"dsthost\"][0]"] := ⟨by decide, rfl⟩
 
-/-- **Link to C03.** `lookup` builds the request from `getDestinationHostFromMetadata(md)` (Host) and
-`url.ParseRequestURI(fullMethodName)` (URL) and consults the table exactly once, through `Table.Lookup` on
-the current table with the configured picker and matcher. -/
+/-- **Link to C03.** The interceptor builds the request from `getDestinationHostFromMetadata(md)` (Host) and
+`url.ParseRequestURI(info.FullMethod)` (URL), where `md` is the incoming metadata of the stream's context. -/
+theorem lookup_request_pinned :
+    lookupRequest = ["lit http.Request {Header=_; Host=recv.getDestinationHostFromMetadata(FromIncomingContext#0); URL=ParseRequestURI#0}"] ∧
+    lookupInputs = ["call metadata.FromIncomingContext(p1.Context())", "call url.ParseRequestURI(p2.FullMethod)"] := ⟨rfl, rfl⟩
+
+/-- The synthetic request sets `Host`, `URL` and `Header` only (`lookup_request_pinned` lists the fields of
+the literal) and nothing stores into its `TLS` field (such a store would be a second entry of the list): `TLS`
+stays nil, so the routing model (C03) is applied with `tls := false` (`Props/C16Compose.lean: grpcReq`). -/
+theorem synthetic_request_has_no_tls :
+    lookupRequest.length = 1 := by decide
+
+/-- The flow of `Stream`: the table is consulted exactly once, through `Table.Lookup` on the current table
+with the configured picker and matcher; a lookup error is `codes.Internal`; a nil target is answered
+`codes.NotFound` and the function returns there; a target whose access rules deny the peer is answered
+`codes.PermissionDenied` (C12); only then the (single) call of the handler, which alone leads to director and
+pool. -/
 theorem lookup_calls_table_lookup_once :
-    reqHostInit = "g.getDestinationHostFromMetadata(md)" ∧
-    reqURLInit = "url.ParseRequestURI(fullMethodName)" ∧
-    tableLookupCalls = ["route.GetTable().Lookup(req, req.Header.Get(\"trace\"), pick, match, g.GlobCache, g.Config.GlobMatchingDisabled)"] ∧
-    lookupPicker = "route.Picker[g.Config.Proxy.Strategy]" ∧
-    lookupMatcher = "route.Matcher[g.Config.Proxy.Matcher]" ∧
-    streamLookupArgs = "ctx, info.FullMethod" := by decide
+    streamFlow = ["call route.GetTable().Lookup(lit#http.Request, lit#http.Request.Header.Get(\"trace\"), route.Picker[recv.Config.Proxy.Strategy], route.Matcher[recv.Config.Proxy.Matcher], recv.GlobCache, recv.Config.GlobMatchingDisabled)", "[lookedErr != nil] ret status.Error(codes.Internal, \"internal error\")", "[!(lookedErr != nil) && looked == nil] ret status.Error(codes.NotFound, \"no route found\")", "[!(lookedErr != nil) && !(looked == nil) && looked.AccessDeniedAddr(remote)] ret status.Error(codes.PermissionDenied, \"access denied\")", "[!(lookedErr != nil) && !(looked == nil) && !(looked.AccessDeniedAddr(remote))] call p3"] := rfl
 
-/-- The synthetic request sets `Host`, `URL` and `Header` only: `TLS` stays nil, so the routing model (C03)
-is applied with `tls := false` (`Props/C16Compose.lean: grpcReq`). -/
-theorem synthetic_request_has_no_tls : reqFields = ["Host", "URL", "Header"] := by decide
-
-/-- The interceptor looks up first, answers a nil target with `codes.NotFound` and returns there — before
-the (single) call of the handler, which alone leads to director and pool. A lookup error is `codes.Internal`. -/
 theorem nil_target_returns_notfound_before_handler :
-    streamOrderLookupNilHandler = true ∧ streamNilTargetReturns = true ∧
-    streamNilTargetCode = "codes.NotFound" ∧ streamNilTargetMessage = "no route found" ∧
-    streamLookupErrorCode = "codes.Internal" ∧ streamHandlerCalls = 1 := by decide
+    streamHandlerCalls = 1 ∧ streamFlow.length = 5 := by decide
 
-/-- The director copies the incoming metadata to the outgoing context and asks the pool for the target the
-interceptor stored in the context; the pool key is `URL.String()`. -/
+/-- The director (the function literal `GetGRPCDirector` returns) copies the incoming metadata unchanged to
+the outgoing context and asks the pool — built once per director by the constructor — for the target the
+interceptor stored in the context; nothing else is called. The pool key is `URL.String()`. -/
 theorem director_copies_metadata_and_uses_pool :
-    directorOutgoingContextArgs = "ctx, md.Copy()" ∧ directorPoolGetArgs = "outCtx, target" ∧
-    directorTargetInit = "ctx.Value(targetKey{}).(*route.Target)" ∧
-    directorPoolInit = "newGrpcConnectionPool(tlscfg, cfg)" ∧
-    targetKeyExpr = "t.URL.String()" ∧ hasTargetCond = "tKey == makeGRPCTargetKey(t)" := by decide
+    directorCalls = ["call metadata.FromIncomingContext(c0)", "call FromIncomingContext#0.Copy()", "call metadata.NewOutgoingContext(c0, FromIncomingContext#0.Copy())", "call c0.Value(key{})", "call made#*grpcConnectionPool.Get(metadata.NewOutgoingContext(c0, FromIncomingContext#0.Copy()), c0.Value(key{}).(*route.Target))"] ∧
+    targetKeyReturns = ["ret p0.URL.String()"] := ⟨rfl, rfl⟩
 
-/-- Lock kinds and the shape of `Get` / `newConnection` / `Set` the pool model relies on: `Get` reads under
-the read lock and reuses a non-Shutdown connection, otherwise dials once and stores once; `Set` runs under
-the write lock and keeps a usable connection stored meanwhile (the repaired race). -/
-theorem pool_get_set_shape :
-    getLockCalls = ["RLock", "RUnlock"] ∧
-    getHitCond = "conn != nil && conn.GetState() != connectivity.Shutdown" ∧
-    getNewConnectionCalls = 1 ∧ newConnectionDials = 1 ∧ newConnectionSets = 1 ∧
-    dialTarget = "target.URL.Host" ∧
-    setLockCalls = ["Lock", "Unlock"] ∧
-    setKeepsPooledCond = "cur != nil && cur != conn && cur.GetState() != connectivity.Shutdown" := by decide
+/-- `Get`: read under the read lock; a pooled connection that is not Shutdown is returned; otherwise exactly
+one `DialContext` to the target's host, and on success one `Set`, whose result is what the caller gets. -/
+theorem pool_get_shape :
+    poolGet = ["call recv.lock.RLock()", "call recv.lock.RUnlock()", "call recv.connections[makeGRPCTargetKey(p1)].GetState()", "[recv.connections[makeGRPCTargetKey(p1)] != nil && recv.connections[makeGRPCTargetKey(p1)].GetState() != connectivity.Shutdown] ret recv.connections[makeGRPCTargetKey(p1)], nil", "[!(recv.connections[makeGRPCTargetKey(p1)] != nil && recv.connections[makeGRPCTargetKey(p1)].GetState() != connectivity.Shutdown)] call grpc.DialContext(p0, p1.URL.Host)", "[!(recv.connections[makeGRPCTargetKey(p1)] != nil && recv.connections[makeGRPCTargetKey(p1)].GetState() != connectivity.Shutdown) && DialContext#1 == nil] call recv.Set(p1, DialContext#0)", "[!(recv.connections[makeGRPCTargetKey(p1)] != nil && recv.connections[makeGRPCTargetKey(p1)].GetState() != connectivity.Shutdown)] ret recv.Set(p1, DialContext#0), DialContext#1", "[!(recv.connections[makeGRPCTargetKey(p1)] != nil && recv.connections[makeGRPCTargetKey(p1)].GetState() != connectivity.Shutdown)] ret <inlined>"] := rfl
+
+/-- `Set`: under the write lock; a usable connection stored meanwhile is kept, the newcomer closed and the
+pooled one returned (the repaired race); otherwise the newcomer is stored and returned. -/
+theorem pool_set_shape :
+    poolSet = ["call recv.lock.Lock()", "defer recv.lock.Unlock()", "call recv.connections[makeGRPCTargetKey(p0)].GetState()", "[recv.connections[makeGRPCTargetKey(p0)] != nil && recv.connections[makeGRPCTargetKey(p0)] != p1 && recv.connections[makeGRPCTargetKey(p0)].GetState() != connectivity.Shutdown] call p1.Close()", "[recv.connections[makeGRPCTargetKey(p0)] != nil && recv.connections[makeGRPCTargetKey(p0)] != p1 && recv.connections[makeGRPCTargetKey(p0)].GetState() != connectivity.Shutdown] ret recv.connections[makeGRPCTargetKey(p0)]", "[!(recv.connections[makeGRPCTargetKey(p0)] != nil && recv.connections[makeGRPCTargetKey(p0)] != p1 && recv.connections[makeGRPCTargetKey(p0)].GetState() != connectivity.Shutdown)] store recv.connections[makeGRPCTargetKey(p0)] = p1", "[!(recv.connections[makeGRPCTargetKey(p0)] != nil && recv.connections[makeGRPCTargetKey(p0)] != p1 && recv.connections[makeGRPCTargetKey(p0)].GetState() != connectivity.Shutdown)] ret p1"] := rfl
 
 /-- The cleanup loop: under the write lock, against the current table, deleting exactly on "Shutdown" and on
-"no target of the table", closing only in the second case, every 5 seconds, started once per pool. -/
+"no target of the table", closing (after `WaitForStateChange`, unconditionally) only in the second case, then
+sleeping for the interval, which is 5 seconds; the loop is started once per pool. `hasTarget` compares the key
+with `makeGRPCTargetKey` of every target of every route of every host. -/
 theorem cleanup_shape :
-    cleanupLockCalls = ["Lock", "Unlock"] ∧ cleanupTableInit = "route.GetTable()" ∧
-    cleanupDeleteConds = ["state == connectivity.Shutdown", "!hasTarget(tKey, table)"] ∧
-    cleanupCloses = 1 ∧ cleanupSleepArg = "p.cleanupInterval" ∧
-    cleanupIntervalSeconds = 5 ∧ cleanupGoroutinesStarted = 1 := by decide
+    poolCleanup = ["call recv.lock.Lock()", "call route.GetTable()", "range recv.connections", "call rv1.GetState()", "[rv1.GetState() == connectivity.Shutdown] call delete(recv.connections, rk1)", "[!(rv1.GetState() == connectivity.Shutdown)] range route.GetTable()", "[!(rv1.GetState() == connectivity.Shutdown)] range rv2", "[!(rv1.GetState() == connectivity.Shutdown)] range rv3.Targets", "[!(rv1.GetState() == connectivity.Shutdown) && !hasTarget(rk1, route.GetTable())] call rv1.WaitForStateChange(WithTimeout#0, rv1.GetState())", "[!(rv1.GetState() == connectivity.Shutdown) && !hasTarget(rk1, route.GetTable())] call rv1.Close()", "[!(rv1.GetState() == connectivity.Shutdown) && !hasTarget(rk1, route.GetTable())] call delete(recv.connections, rk1)", "call recv.lock.Unlock()", "call time.Sleep(recv.cleanupInterval)"] ∧
+    hasTargetReturns = ["range p1", "range rv1", "range rv2.Targets", "[p0 == makeGRPCTargetKey(rv3)] ret true", "ret false"] ∧
+    cleanupIntervalSeconds = 5 ∧
+    cleanupGoroutinesStarted = 1 := ⟨rfl, rfl, rfl, rfl⟩
 
-/-- `main.newGrpcProxy` wires codec, unknown-service handler, interceptor and limits as the harness
-(`harness/c16/call.go: newProxyServer`) replicates them; `ListenAndServeGRPC` passes the options unchanged. -/
+/-- `main.newGrpcProxy` wires codec, unknown-service handler (the transparent handler over the director),
+interceptor (configuration, stats handler, glob cache) and the two message limits — each from its own
+configuration value, unconditionally — as the harness (`harness/c16/call.go: newProxyServer`) replicates them;
+`ListenAndServeGRPC` passes the options unchanged to `grpc.NewServer`. -/
 theorem proxy_wiring_pinned :
-    grpcServerOptions = ["grpc.CustomCodec(grpc_proxy.Codec())", "grpc.UnknownServiceHandler(handler)",
-      "grpc.StreamInterceptor(proxyInterceptor.Stream)", "grpc.StatsHandler(statsHandler)",
-      "grpc.MaxRecvMsgSize(cfg.Proxy.GRPCMaxRxMsgSize)", "grpc.MaxSendMsgSize(cfg.Proxy.GRPCMaxTxMsgSize)"] ∧
-    grpcHandlerInit = "grpc_proxy.TransparentHandler(proxy.GetGRPCDirector(tlscfg, cfg))" ∧
-    grpcNewServerArgs = "opts..." := by decide
+    grpcServerOptions = ["grpc.CustomCodec(grpc_proxy.Codec())", "grpc.MaxRecvMsgSize(p0.Proxy.GRPCMaxRxMsgSize)", "grpc.MaxSendMsgSize(p0.Proxy.GRPCMaxTxMsgSize)", "grpc.StatsHandler(p2)", "grpc.StreamInterceptor(lit#proxy.GrpcProxyInterceptor.Stream)", "grpc.UnknownServiceHandler(grpc_proxy.TransparentHandler(proxy.GetGRPCDirector(p1, p0)))"] ∧
+    grpcInterceptorLit = ["lit proxy.GrpcProxyInterceptor {Config=p0; GlobCache=route.NewGlobCache(p0.GlobCacheSize); StatsHandler=p2}"] ∧
+    grpcNewServer = ["[!(ListenTCP#1 != nil)] call grpc.NewServer(p1...)"] := ⟨rfl, rfl, rfl⟩
 
 end Fabio.Props.C16Facts
